@@ -343,6 +343,27 @@ func c19One(c *fw.Ctx, cs c19Case) {
 		e.opnGo = nil
 		e.mu.Unlock()
 		c.Class("forced-races:"+cs.Scenario, 1)
+	case "renewal-answer-withheld":
+		// the renewal's OPN request is never answered: Renew fails with a timeout, and the channel goes on under the
+		// token it has (the fresh requests below must complete)
+		gate := make(chan struct{})
+		defer close(gate)
+		e.mu.Lock()
+		e.opnGo = gate
+		e.mu.Unlock()
+		rdone := make(chan struct{})
+		var rerr error
+		go func() { rerr = e.sc.Renew(bg); close(rdone) }()
+		if !waitForBeats(rdone, 4*limit+3000) {
+			cs.Detail = fmt.Sprintf("Renew has not returned after %d heartbeats although its request timeout is %d ms\n%s", 4*limit+3000, cs.TimeoutMS, blockedDump())
+			c.Violation("c19:call-never-returns:"+cs.Scenario, cs.Detail, cs)
+			return
+		}
+		if rerr == nil {
+			c.Inconclusive("the renewal succeeded although its answer was withheld")
+			return
+		}
+		c.Class("renewal-failed-with:"+classOf(rerr.Error()), 1)
 	case "cancelled-before-send":
 		// a request whose context has ended before anything was written must not leave a handler behind
 		for k := 0; k < 6; k++ {
@@ -398,10 +419,10 @@ func c19One(c *fw.Ctx, cs c19Case) {
 // waitForBeats waits until done is closed or n heartbeats passed.
 func waitForBeats(done chan struct{}, n int64) bool { return fw.WaitBeats(done, n) }
 
-var c19Scenarios = []string{"withheld", "answer-near-timeout", "late-answer-forced", "cancel-forced", "late-renewal-answer-forced", "cancelled-before-send"}
+var c19Scenarios = []string{"withheld", "answer-near-timeout", "late-answer-forced", "cancel-forced", "late-renewal-answer-forced", "cancelled-before-send", "renewal-answer-withheld"}
 
 func c19Run(c *fw.Ctx) error {
-	n := int64(c.Pick(48, 6000))
+	n := int64(c.Pick(56, 6000))
 	var done int64
 	for i := int64(0); i < n; i++ {
 		if int(i%int64(c.NBatch)) != c.Batch || i < c.Resume {
